@@ -2844,5 +2844,59 @@ pub fn main(opts: &Opts) {
         );
     }
     sink.add("wall_ms", t0.elapsed().as_millis() as u64);
+    // C17 in one RUN of the agent: several candidates with the SAME expression text, and a transient IRR
+    // fault (the first `!gAS64500` of the run is answered with an error, every later one normally). The
+    // library swallows per-query errors, so one evaluation comes out partial — exactly one: every
+    // other candidate must get what a fault-free run gives it, whatever was evaluated before it on the
+    // same connection (which candidate is hit depends on the map's iteration order, so the verdict
+    // counts deviations instead of naming the candidate).
+    if family == "c17" && opts.replay.is_none() {
+        let a = |body: &str| format!("A{}\n{body}\nC\n", body.len() + 1).into_bytes();
+        let mut table: HashMap<String, Vec<u8>> = HashMap::new();
+        table.insert("!iAS-T0,1".into(), a("AS64500 AS64501"));
+        table.insert("!gAS64500".into(), a("10.0.0.0/8"));
+        table.insert("!6AS64500".into(), a("2001:db8::/32"));
+        table.insert("!gAS64501".into(), a("198.51.100.0/24"));
+        table.insert("!6AS64501".into(), b"D\n".to_vec());
+        let fake = FakeIrrd::start(table);
+        for (tag, expr, n) in [("as-set", "AS-T0", 3usize), ("autnum", "AS64500", 4), ("or", "AS64500 OR AS64501", 2)] {
+            for kind in ['F', 'D', 'E'] {
+                let cands: Vec<(String, String)> = (0..n).map(|i| (format!("p{i}"), expr.to_string())).collect();
+                let port = fake.port;
+                let run = |faults: Vec<(crate::fakeirrd::Sel, char)>| -> Result<Vec<String>, String> {
+                    let _ = fake.begin(faults);
+                    let c = cands.clone();
+                    match catch_unwind(AssertUnwindSafe(move || agent::verif::evaluate(&c, "127.0.0.1", port))) {
+                        Ok(Ok(v)) => {
+                            let mut outs: Vec<(String, String)> = v.iter().map(|(n, _, r)| (n.clone(), format!("{r:?}"))).collect();
+                            outs.sort();
+                            Ok(outs.into_iter().map(|x| x.1).collect())
+                        }
+                        Ok(Err(e)) => Err(format!("error-{}", e.replace(' ', "-"))),
+                        Err(_) => Err("panic".into()),
+                    }
+                };
+                let clean = run(vec![]);
+                let hit = run(vec![(crate::fakeirrd::Sel::QueryOnce("!gAS64500".into()), kind)]);
+                let case = format!("c17.same-expression-transient-fault.{tag}.{kind}");
+                let verdict = match (&clean, &hit) {
+                    (Err(e), _) => format!("violation fault-free-run-{e}"),
+                    (_, Err(e)) => format!("violation run-with-one-transient-fault-{e}"),
+                    (Ok(c), Ok(h)) => {
+                        let deviating = c.iter().zip(h.iter()).filter(|(x, y)| x != y).count();
+                        if h.len() != c.len() {
+                            "violation candidate-dropped".to_string()
+                        } else if deviating > 1 {
+                            format!("violation {deviating}-of-{n}-results-show-one-transient-fault")
+                        } else {
+                            "ok".to_string()
+                        }
+                    }
+                };
+                sink.count("c17.transient");
+                sink.direct(&case, verdict);
+            }
+        }
+    }
     sink.write(opts, &format!("evalseq"));
 }
